@@ -66,6 +66,7 @@ int verif_open(const char *path, int flags, long mode);
 #define sigfillset(a) verif_sigfillset(a)
 #define sigemptyset(a) verif_sigemptyset(a)
 #define pthread_sigmask(a, b, c) verif_pthread_sigmask(a, b, c)
+#define sigprocmask(a, b, c) verif_sigprocmask(a, b, c)
 #define sigaction(a, b, c) verif_sigaction(a, b, c)
 #define clock_gettime(a, b) verif_clock_gettime(a, b)
 #define fileno(a) verif_fileno(a)
@@ -91,6 +92,7 @@ int verif_getrlimit(int resource, struct rlimit *rl);
 int verif_sigfillset(sigset_t *set);
 int verif_sigemptyset(sigset_t *set);
 int verif_pthread_sigmask(int how, const sigset_t *set, sigset_t *oldset);
+int verif_sigprocmask(int how, const sigset_t *set, sigset_t *oldset);
 int verif_sigaction(int sig, const struct sigaction *act, struct sigaction *old);
 int verif_clock_gettime(clockid_t clk, struct timespec *ts);
 int verif_fileno(FILE *f);
